@@ -47,6 +47,9 @@ def obligations(tier):
         if len(stack) == 3 and table in ('two', 'both') and req in ('unknown', 'nobind'):
             continue
         obs.append({'h': 'chain', 'disp': disp, 'stack': stack, 'table': table, 'req': req})
+    # two failures of one exception class with different codes against tables with per-code handlers
+    for disp, table, swap in it.product(('sync', 'async'), ('percode', 'both', 'two', 'replace_generic', 'replace_percode'), (0, 1)):
+        obs.append({'h': 'chain', 'disp': disp, 'stack': [], 'table': table, 'req': 'batch_2codes', 'swap': swap})
     # handler tables written with the per-code keys first (the order of running is generic, then per-code, whatever the writing order)
     for disp, table, req in it.product(('sync', 'async'), ('both_rev', 'two_rev', 'replace_generic_rev'), ('unknown', 'nobind', 'perr', 'boom', 'notif_perr', 'batch', 'batch_2fail')):
         for stack in ([], ['P']):
@@ -201,6 +204,8 @@ def h_chain(ob):
                 d.update(method='two', params={'zz': 1})
             elif kind == 'perr':
                 d.update(method='perr', params=[1])
+            elif kind == 'perr2':
+                d.update(method='perr2', params=[1])
             elif kind == 'boom':
                 d.update(method='boom')
             elif kind == 'internal':
@@ -234,6 +239,23 @@ def h_chain(ob):
             env.assume(rid2 != rid)
             elems = [('perr', rid), ('perr', rid2)]
             doc = [el('perr', rid), el('perr', rid2)]
+        elif req == 'batch_2codes':
+            # two failures of the SAME exception class with DIFFERENT codes, one after the other on one dispatcher
+            rid2 = env.int('rid2')
+            env.assume(rid2 != rid)
+            code2 = env.int('perr2.code')
+            env.assume(code2 != env.int('perr.code'))
+
+            def perr2(k):
+                raise pjrpc.exc.JsonRpcError(code=code2, message='second')
+            if is_async:
+                async def aperr2(k):
+                    perr2(k)
+                rig.d.add(aperr2, name='perr2')
+            else:
+                rig.d.add(perr2, name='perr2')
+            elems = [('perr', rid), ('perr2', rid2)] if not ob.get('swap') else [('perr2', rid), ('perr', rid2)]
+            doc = [el(k, i) for k, i in elems]
         elif req == 'rejected':
             elems, doc = [], env.int('x')
         else:
@@ -247,7 +269,7 @@ def h_chain(ob):
         want_log, want_resps = [], []
         stack = ob['stack']
         for kind, id_ in elems:
-            method = {'ok': 'echo', 'unknown': 'nosuch', 'nobind': 'two', 'perr': 'perr', 'boom': 'boom', 'internal': 'vfail'}[kind]
+            method = {'ok': 'echo', 'unknown': 'nosuch', 'nobind': 'two', 'perr': 'perr', 'perr2': 'perr2', 'boom': 'boom', 'internal': 'vfail'}[kind]
             depth, rewritten = 0, False
             short = None
             for i, k in enumerate(stack):
@@ -278,6 +300,8 @@ def h_chain(ob):
                         code, msg = -32000, 'Server error'
                     elif eff == 'internal':
                         code, msg = -32603, 'Internal error'
+                    elif eff == 'perr2':
+                        code, msg = env.int('perr2.code'), 'second'
                     else:
                         code, msg = env.int('perr.code'), env.str('perr.msg')
                     raised = code
@@ -310,7 +334,7 @@ def h_chain(ob):
             return ['nothing']
         if out is None:
             raise Violation('response-expected-but-nothing-sent', want_resps)
-        docs = out[0] if req in ('batch', 'notif_batch', 'mixed_batch', 'batch_2fail') else [out[0]]
+        docs = out[0] if req in ('batch', 'notif_batch', 'mixed_batch', 'batch_2fail', 'batch_2codes') else [out[0]]
         if not isinstance(docs, list) or len(docs) != len(want_resps):
             raise Violation('sent-shape', (out[0], len(want_resps)))
         for d, (id_, (tag, val)) in zip(docs, want_resps):
